@@ -24,3 +24,4 @@ decoder's own checks (`E57/Proofs/WellFormed.lean`, namespace `E57.WF`):
 import E57.Spec.Decoder
 import E57.Proofs.WellFormed
 import E57.Proofs.XmlRoundTrip
+import E57.Proofs.Closed
